@@ -855,11 +855,11 @@ class TimestampEncoder(StypeEncoder):
     :class:`torch_frame.nn.encoding.PositionalEncoding`. The other
     features, including month, day, dayofweek, hour, minute and second,
     are encoded using :class:`torch_frame.nn.encoding.CyclicEncoding`.
-    It applies linear layer for each column in a batched manner. The
-    TimestampEncoder does not support NaN timestamps, because
+    It applies linear layer for each column in a batched manner.
     :class:`torch_frame.nn.encoding.PositionalEncoding` does not support
-    negative tensor values. So :class:`torch_frame.NAStrategy.MEDIAN_TIMESTAMP`
-    is applied as the default :class:`~torch_frame.NAStrategy`.
+    negative tensor values, so :class:`torch_frame.NAStrategy.MEDIAN_TIMESTAMP`
+    is applied as the default :class:`~torch_frame.NAStrategy`; without an
+    :class:`~torch_frame.NAStrategy`, missing timestamps are embedded as zeros.
 
     Args:
         out_size (int): Output dimension of the positional and cyclic
@@ -916,11 +916,18 @@ class TimestampEncoder(StypeEncoder):
         feat: Tensor,
         col_names: list[str] | None = None,
     ) -> Tensor:
+        # Missing timestamps (all -1) are outside the domain of the
+        # positional/cyclic encodings. Encode a dummy value for them and
+        # output NaN, which `forward` turns into the all-zero embedding.
+        # [batch_size, num_cols, 1]
+        na_mask = (feat < 0).any(dim=-1, keepdim=True)
         feat = feat.to(torch.float32)
         # [batch_size, num_cols, 1] - [1, num_cols, 1]
         feat_year = feat[..., :1] - self.min_year.view(1, -1, 1)
+        feat_year = feat_year.masked_fill(na_mask, 0)
         # [batch_size, num_cols, num_rest] / [1, 1, num_rest]
         feat_rest = feat[..., 1:] / self.max_values.view(1, 1, -1)
+        feat_rest = feat_rest.masked_fill(na_mask, 0)
         # [batch_size, num_cols, num_time_feats, out_size]
         x = torch.cat([
             self.positional_encoding(feat_year),
@@ -932,4 +939,5 @@ class TimestampEncoder(StypeEncoder):
         x_lin = torch.einsum('ijkl,jklm->ijm', x, self.weight)
         # [batch_size, num_cols, out_channels] + [num_cols, out_channels]
         x = x_lin + self.bias
+        x = x.masked_fill(na_mask, float('nan'))
         return x
